@@ -545,8 +545,14 @@ class EvolveAppTask(BaseEvolutionTask):
 
         # If we don't have anything to do, then all we'll need to set is
         # pre_migrate_state, since we'll still want it for signal emissions.
+        #
+        # The graph will also always need to know which migrations are
+        # already applied, so that dependencies on them (such as an
+        # evolution's AFTER_MIGRATIONS) can be dropped even when there are
+        # no migrations left to run.
         result = {
             'pre_migrate_state': pre_migrate_state,
+            'to_mark_applied': migrations_to_mark_applied,
         }
 
         if not pre_migration_plan:
@@ -560,7 +566,6 @@ class EvolveAppTask(BaseEvolutionTask):
         if pre_migration_plan or post_migration_plan:
             result.update({
                 'full_plan': full_migration_plan,
-                'to_mark_applied': migrations_to_mark_applied,
                 'post_plan': post_migration_plan,
                 'post_targets': post_migration_targets,
                 'pre_plan': pre_migration_plan,
